@@ -32,6 +32,7 @@ import (
 
 	"github.com/fabiolb/fabio/config"
 	"github.com/fabiolb/fabio/internal/verifx"
+	"github.com/fabiolb/fabio/logger"
 	"github.com/fabiolb/fabio/noroute"
 	"github.com/fabiolb/fabio/route"
 )
@@ -69,26 +70,27 @@ type cvxRoute struct {
 }
 
 type cvxReq struct {
-	Prop     string            `json:"prop"`
-	Sub      string            `json:"sub"`
-	TLS      bool              `json:"tls"`
-	Kind     string            `json:"kind"`
-	Method   string            `json:"method"`
-	RHost    string            `json:"rhost"`
-	Path     []string          `json:"path"`
-	Query    []string          `json:"query"`
-	Hdrs     string            `json:"hdrs"`
-	Forged   map[string]string `json:"forged"`
-	XfpVal   string            `json:"xfpval"`
-	Routes   []cvxRoute        `json:"routes"`
-	CfgIP    bool              `json:"cfgip"`
-	CfgTLS   bool              `json:"cfgtls"`
-	CfgSTS   bool              `json:"cfgsts"`
-	NRStatus int               `json:"nrstatus"`
-	NRPage   string            `json:"nrpage"`
-	Resp     string            `json:"resp"`
-	Peer     string            `json:"peer"`     // "v4" (default) | "v6": the client connects over 127.0.0.1 / ::1
-	CfgSpell string            `json:"cfgspell"` // "canon" (default) | "odd": spelling of the configured header names
+	Prop      string            `json:"prop"`
+	Sub       string            `json:"sub"`
+	TLS       bool              `json:"tls"`
+	Kind      string            `json:"kind"`
+	Method    string            `json:"method"`
+	RHost     string            `json:"rhost"`
+	Path      []string          `json:"path"`
+	Query     []string          `json:"query"`
+	Hdrs      string            `json:"hdrs"`
+	Forged    map[string]string `json:"forged"`
+	XfpVal    string            `json:"xfpval"`
+	Routes    []cvxRoute        `json:"routes"`
+	CfgIP     bool              `json:"cfgip"`
+	CfgTLS    bool              `json:"cfgtls"`
+	CfgSTS    bool              `json:"cfgsts"`
+	NRStatus  int               `json:"nrstatus"`
+	NRPage    string            `json:"nrpage"`
+	Resp      string            `json:"resp"`
+	Peer      string            `json:"peer"`      // "v4" (default) | "v6": the client connects over 127.0.0.1 / ::1
+	CfgSpell  string            `json:"cfgspell"`  // "canon" (default) | "odd": spelling of the configured header names
+	AccessLog bool              `json:"accesslog"` // an access logger is configured
 }
 
 type cvxUp struct {
@@ -114,6 +116,7 @@ type cvxOut struct {
 	Loc    cvxLoc    `json:"loc"`
 	Resp   string    `json:"resp"`
 	STS    cvxHdrExp `json:"sts"`
+	Cut    bool      `json:"cut"` // the upstream dies before its answer is complete: the client must not take it for complete
 }
 
 // cvxAtt is what the harness attaches to a case (bodies); recorded with a failure so that a
@@ -224,6 +227,29 @@ func cvxForgedToken(cs *cvxCase, h, tok string) string {
 		return cvxReqPort
 	case "stsvalue":
 		return cvxSTSValue
+	case "true": // what fabio itself would put into header h for this request
+		scheme, port := "http", "80"
+		if cs.C.TLS {
+			scheme, port = "https", "443"
+		}
+		if cs.C.RHost == "ported" {
+			port = cvxReqPort
+		}
+		switch h {
+		case "clientip", "xrealip", "xff":
+			return cvxPeerOf(cs)
+		case "tlshdr":
+			return cvxTLSVal
+		case "xfproto":
+			return scheme
+		case "xfport":
+			return port
+		case "xfhost":
+			return cvxReqHost(cs)
+		case "forwarded":
+			return "for=" + cvxPeerOf(cs) + "; proto=" + scheme
+		}
+		return tok
 	case "x1":
 		return "1.1.1.1"
 	case "x2":
@@ -284,11 +310,20 @@ func cvxForgedLines(cs *cvxCase, h string) []string {
 			return []string{"1.1.1.1, " + cvxForgedToken(cs, h, "peerpfx")}
 		case "dup":
 			return []string{"1.1.1.1, " + cvxPeerOf(cs)}
+		case "truefirst":
+			return []string{cvxPeerOf(cs), "1.1.1.1"}
+		case "truelast":
+			return []string{"1.1.1.1", cvxPeerOf(cs)}
 		}
 		return []string{"1.1.1.1"}
 	}
-	if style == "twice" {
+	switch style {
+	case "twice":
 		return []string{cvxForgedToken(cs, h, "v1"), cvxForgedToken(cs, h, "v2")}
+	case "truefirst":
+		return []string{cvxForgedToken(cs, h, "true"), cvxForgedToken(cs, h, "v1")}
+	case "truelast":
+		return []string{cvxForgedToken(cs, h, "v1"), cvxForgedToken(cs, h, "true")}
 	}
 	return []string{cvxForgedToken(cs, h, "v1")}
 }
@@ -335,7 +370,8 @@ func cvxHeaderSet(id string) []cvxHdrLine {
 
 // upstream answers
 type cvxPlan struct {
-	Interim []int // informational answers sent before the final one
+	Fault   string // "" or the way the upstream dies before its answer is complete (see serveFault)
+	Interim []int  // informational answers sent before the final one
 	Status  int
 	Hdr     []cvxHdrLine
 	Body    int
@@ -363,6 +399,14 @@ func cvxAnswerScript(kind string) (interim []int, status int, hdr []cvxHdrLine) 
 }
 
 func cvxFinalAnswer(kind string) (status int, hdr []cvxHdrLine) {
+	if n, ok := strings.CutPrefix(kind, "st"); ok { // "st599": that status, whatever it means
+		if code, err := strconv.Atoi(n); err == nil {
+			return code, []cvxHdrLine{
+				{"Content-Type", []string{"text/plain"}},
+				{"X-Up-Status", []string{n}},
+			}
+		}
+	}
 	switch kind {
 	case "notfound":
 		return 404, []cvxHdrLine{
@@ -559,6 +603,7 @@ type cvxCfgKey struct {
 	ip, tlshdr, sts bool
 	nr              int
 	tls             bool
+	log             bool // an access logger is configured
 	odd             bool // header names configured in non-canonical spelling
 	v6              bool // the front listens on ::1
 }
@@ -687,6 +732,10 @@ func (w *cvxWorld) serveUpstream(rw http.ResponseWriter, r *http.Request) {
 		st, hd := cvxFinalAnswer("ok")
 		plan = &cvxPlan{Status: st, Hdr: hd, Body: 1}
 	}
+	if plan.Fault != "" {
+		w.serveFault(rw, plan)
+		return
+	}
 	for _, code := range plan.Interim {
 		rw.Header().Set("Link", "</style.css>; rel=preload; as=style")
 		rw.WriteHeader(code)
@@ -723,6 +772,50 @@ func (w *cvxWorld) serveUpstream(rw http.ResponseWriter, r *http.Request) {
 	}
 	if fl != nil {
 		fl.Flush() // an empty chunked body still has to be framed as chunked
+	}
+}
+
+// cvxCutAfter: how many body bytes a faulty upstream sends before it dies
+const cvxCutAfter = 10000
+
+// serveFault answers by hand on the raw connection and dies before the answer is complete:
+//
+//	cuthead      the connection is closed before any byte of an answer
+//	cutcl        200 with Content-Length = the whole body, closed after cvxCutAfter body bytes
+//	cutchunked   200 chunked, one chunk of cvxCutAfter bytes, closed without the last chunk
+//	cutchunked0  200 chunked, closed right after the header
+//	rstchunked   as cutchunked, the connection is reset instead of closed
+func (w *cvxWorld) serveFault(rw http.ResponseWriter, plan *cvxPlan) {
+	hj, ok := rw.(http.Hijacker)
+	if !ok {
+		panic("upstream cannot hijack")
+	}
+	conn, brw, err := hj.Hijack()
+	if err != nil {
+		return
+	}
+	defer conn.Close()
+	body := cvxBodies[plan.Body]
+	k := cvxCutAfter
+	if k > len(body) {
+		k = len(body) / 2
+	}
+	switch plan.Fault {
+	case "cuthead":
+		return
+	case "cutcl":
+		fmt.Fprintf(brw, "HTTP/1.1 200 OK\r\nContent-Type: application/octet-stream\r\nContent-Length: %d\r\n\r\n", len(body))
+		brw.Write(body[:k])
+	case "cutchunked", "rstchunked":
+		fmt.Fprintf(brw, "HTTP/1.1 200 OK\r\nContent-Type: application/octet-stream\r\nTransfer-Encoding: chunked\r\n\r\n%x\r\n", k)
+		brw.Write(body[:k])
+		brw.WriteString("\r\n")
+	case "cutchunked0":
+		brw.WriteString("HTTP/1.1 200 OK\r\nContent-Type: application/octet-stream\r\nTransfer-Encoding: chunked\r\n\r\n")
+	}
+	brw.Flush()
+	if tc, ok := conn.(*net.TCPConn); ok && plan.Fault == "rstchunked" {
+		tc.SetLinger(0)
 	}
 }
 
@@ -783,6 +876,11 @@ func (w *cvxWorld) front(k cvxCfgKey) *cvxFront {
 			return route.GetTable().Lookup(r, r.Header.Get("trace"), pick, match, gc, false)
 		},
 	}
+	if k.log {
+		if l, err := logger.New(io.Discard, logger.CombinedFormat); err == nil {
+			p.Logger = l
+		}
+	}
 	srv := httptest.NewUnstartedServer(p)
 	if k.v6 {
 		l, err := net.Listen("tcp6", "[::1]:0")
@@ -822,7 +920,7 @@ func (w *cvxWorld) front(k cvxCfgKey) *cvxFront {
 
 func cvxFrontKey(cs *cvxCase) cvxCfgKey {
 	return cvxCfgKey{ip: cs.C.CfgIP, tlshdr: cs.C.CfgTLS, sts: cs.C.CfgSTS, nr: cs.C.NRStatus, tls: cs.C.TLS,
-		odd: cs.C.CfgSpell == "odd", v6: cs.C.Peer == "v6"}
+		odd: cs.C.CfgSpell == "odd", v6: cs.C.Peer == "v6", log: cs.C.AccessLog}
 }
 
 // ---------------------------------------------------------------- the client side
